@@ -770,7 +770,24 @@ func (h *anteH) apply(ctx sdk.Context, s cfgSpec) {
 		h.editListsTo(ctx, s.black, s.white)
 	}
 	if s.setPoor {
-		app.CustomGovKeeper.SavePoorNetworkMessages(ctx, &govtypes.AllowedMessages{Messages: s.poor})
+		// through the content handler of the SetPoorNetworkMessages proposal, as governance does it; what is stored must be
+		// the list that was set - also when it is EMPTY (nothing but small native transfers is allowed then)
+		err := app.CustomGovKeeper.GetProposalRouter().ApplyProposal(ctx, 0, govtypes.NewSetPoorNetworkMessagesProposal(s.poor), sdk.ZeroDec())
+		got := app.CustomGovKeeper.GetPoorNetworkMessages(ctx)
+		same := err == nil && got != nil && len(got.Messages) == len(s.poor)
+		if same {
+			for i := range s.poor {
+				same = same && got.Messages[i] == s.poor[i]
+			}
+		}
+		h.r.Count("oracle:C14/config/allowed-messages")
+		if !same {
+			var stored []string
+			if got != nil {
+				stored = got.Messages
+			}
+			h.r.Fail("C14/config/allowed-messages-not-as-set", fmt.Sprintf("SetPoorNetworkMessages(%v) enacted (err=%v); the stored allowed-message list is %v", s.poor, err, stored), nil)
+		}
 	}
 	for _, f := range s.exec {
 		app.CustomGovKeeper.SetExecutionFee(ctx, f)
